@@ -5,6 +5,7 @@
   before regex rules, unchanged blob ⇒ identical bytes) is in Frrs/Props/C05Stream.lean once the
   stream model is imported; regex *matching* is the `regex` crate's (a parameter).
 -/
+import Frrs.Proofs.Stanza
 import Frrs.Proofs.Replace
 namespace Frrs.C05
 open Frrs
@@ -141,5 +142,21 @@ q==>r==>s" =
 example : applyLiteral [(b!"a", b!"b"), (b!"b", b!"c")] b!"ab" = b!"cc" := by decide +kernel  -- later rules see earlier output
 example : expandTemplate (fun k => if k == 1 then some b!"G" else none) b!"$$1-$1-$2-$x-$" = b!"$1-G--$x-$" := by
   decide +kernel
+
+/-! ### the blob stanza as the main loop handles it (for every payload) -/
+
+/-- **exactly the payload is rewritten, and framing is by length**: in a blob stanza whose blob is kept, the `data` line and
+    the `n` payload bytes that follow — whatever they contain — become the buffered stanza lines, a recomputed length header
+    and `rewriteBlob o payload`; the loop resumes right after the payload. (`rewriteBlob` = literal rules then regex rules,
+    `apply_unchanged`/`replaceAll_spec` above say what those do.) -/
+theorem blob_payload_rewritten_exactly (o : FOpts) (s : FState) (line inp payload rest : Bytes) (n fuel : Nat)
+    (hs : s.skippingTag = false) (hb : s.inBlob = true) (hc : s.inCommit = false)
+    (hp1 : s.pendingTagReset = none) (hp2 : s.pendingBranchReset = none)
+    (hl : startsWith line b!"data " = true) (hh : parseDataHeader line = some n)
+    (hr : readExact n inp = some (payload, rest)) (hk : blobStripped o s n = false) :
+    ∃ s', step o s line inp fuel = .cont s' rest ∧
+      s'.out = s.out ++ (s.blobBuf.reverse.flatten ++ dataHeader (rewriteBlob o payload).length ++ rewriteBlob o payload) ∧
+      s'.inBlob = false ∧ s'.pairs = s.pairs ∧ s'.oversizeMarks = s.oversizeMarks :=
+  blob_data_kept o s line inp payload rest n fuel hs hb hc hp1 hp2 hl hh hr hk
 
 end Frrs.C05
